@@ -73,9 +73,9 @@ func validExportedGo(s string) bool {
 
 func init() {
 	register("C14", func(c *engine.Ctx) {
-		c.Rule = "function level: Identifierize (real, through the verif export shim) vs the model on every sequence of rune classes {lower with upper image, lower without, upper, caseless letter, decimal digit, other numeral, delimiter} up to length 5 (6 in thorough) realised with representative runes, with and without capitalizations chosen to equal a part, plus random Unicode strings; judged: inside the hypotheses (no other-numeral, no leading lower-case letter without upper-case image) the result is a valid exported Go identifier. Table hypotheses are checked for all 1,114,112 code points. Program level: sibling names that collide after normalisation (2..6 per set) and type-name collisions (up to 4) must give distinct field / type names, tags with the exact names, and a decode that binds every key to its own field; key fidelity: every punctuation character encoding/json admits in a tag name (28) inside / before / after letters, and names that look like format verbs, template actions or escapes (%s, 100%, %%, {{.}}, $1), required and optional, must round-trip. Distinct = distinct (class sequence, capitalization kind) / collision sets."
+		c.Rule = "function level: Identifierize (real, through the verif export shim) vs the model on every sequence of rune classes {lower with upper image, lower without, upper, caseless letter, decimal digit, other numeral, delimiter} up to length 5 (6 in thorough) realised with representative runes, with and without capitalizations chosen to equal a part, plus random Unicode strings; judged: inside the hypotheses of the theorem ident_valid (every rune satisfies TableOK: cased ⇒ letter, numeral ⇒ decimal digit, the upper image of a letter/digit is a letter/digit and not lower-case-only) the result is a valid exported Go identifier. TableOK is evaluated for all 1,114,112 code points (exceptions counted) and for every admitted code point the real function is run on three names containing it. Program level: sibling names that collide after normalisation (2..6 per set) and type-name collisions (up to 4) must give distinct field / type names, tags with the exact names, and a decode that binds every key to its own field; key fidelity: every punctuation character encoding/json admits in a tag name (28) inside / before / after letters, and names that look like format verbs, template actions or escapes (%s, 100%, %%, {{.}}, $1), required and optional, must round-trip. Distinct = distinct (class sequence, capitalization kind) / collision sets."
 		c.Proofs([]string{"GJS.Props.C14"}, []string{
-			"GJS.Props.C14.splitIdent_spec", "GJS.Props.C14.never_empty", "GJS.Props.C14.leading_repair", "GJS.Props.C14.leading_kept",
+			"GJS.Props.C14.splitIdent_spec", "GJS.Props.C14.ident_valid", "GJS.Props.C14.ident_valid_caps", "GJS.Props.C14.never_empty", "GJS.Props.C14.leading_repair", "GJS.Props.C14.leading_kept",
 			"GJS.Props.C14.capitalize_plain", "GJS.Props.C14.tag_is_raw_name", "GJS.Props.C14.probeName_fresh", "GJS.Props.C14.KF_no_upper_image",
 		})
 		fails := 0
@@ -95,7 +95,35 @@ func init() {
 				upNotLetter++
 			}
 		}
-		c.Exhaustive = append(c.Exhaustive, "Unicode table hypotheses over all 1114112 code points")
+		// the theorem's per-rune hypothesis over ALL code points: how many runes it excludes, and — for every rune it
+		// admits — the real Identifierize on the one-rune name and on the rune after a letter and after a separator
+		excluded, admitted := 0, 0
+		for r := rune(0); r <= unicode.MaxRune; r++ {
+			if r >= 0xD800 && r <= 0xDFFF {
+				continue // surrogates are not encodable in a Go string
+			}
+			if !tableOK(r) {
+				excluded++
+				continue
+			}
+			admitted++
+			for _, name := range []string{string(r), "x" + string(r), "_" + string(r) + "y"} {
+				if name == "*" {
+					continue
+				}
+				if got := generator.VerifIdentifierize(nil, nil, name); !validExportedGo(got) {
+					fails++
+					if fails <= 3 {
+						c.Fail("oracle", fmt.Sprintf("Identifierize(%q) = %q is not a valid exported Go identifier although U+%04X satisfies the table hypotheses of ident_valid", name, got, r),
+							M{"kind": "function", "function": "Identifierize", "input": name, "real": got}, false)
+					}
+				}
+			}
+		}
+		c.Count("unicode-tables", fmt.Sprintf("runes-admitted-by-TableOK=%d", admitted))
+		c.Count("unicode-tables", fmt.Sprintf("runes-excluded-by-TableOK=%d", excluded))
+		c.Evaluations += 3 * admitted
+		c.Exhaustive = append(c.Exhaustive, "Unicode table hypotheses over all 1114112 code points", "real Identifierize on 3 names per code point admitted by TableOK (all code points)")
 		c.Count("unicode-tables", fmt.Sprintf("lower-without-upper-image=%d", noUpper))
 		c.Count("unicode-tables", fmt.Sprintf("numerals-not-decimal-digits=%d", otherNum))
 		if lowerNotLetter != 0 || upNotLetter != 0 {
@@ -318,29 +346,30 @@ func init() {
 	})
 }
 
-// inIdentHypotheses: no other-numeral anywhere; the first non-delimiter rune is not a lower-case letter
-// without upper-case image; no rune that is cased but whose upper image is not upper.
-func inIdentHypotheses(s string) bool {
-	if s == "" || s == "*" {
-		return true
+// tableOK mirrors the Lean structure GJS.Props.C14.TableOK (the hypotheses of ident_valid / ident_valid_caps)
+// on Go's unicode tables.
+func tableOK(r rune) bool {
+	u := unicode.ToUpper(r)
+	if (unicode.IsLower(r) || unicode.IsUpper(r)) && !unicode.IsLetter(r) {
+		return false // cased_letter
 	}
-	first := true
-	prevDelim := true
+	if unicode.IsNumber(r) && !unicode.IsDigit(r) {
+		return false // number_digit
+	}
+	delim := !unicode.IsLower(r) && !unicode.IsUpper(r) && !unicode.IsNumber(r) && !unicode.IsLetter(r)
+	if !delim && !(unicode.IsLetter(u) || unicode.IsDigit(u)) {
+		return false // up_ident
+	}
+	if unicode.IsLower(u) && !unicode.IsUpper(u) {
+		return false // up_not_lower_only
+	}
+	return true
+}
+
+// inIdentHypotheses: every rune of the name satisfies the table hypotheses of the theorem.
+func inIdentHypotheses(s string) bool {
 	for _, r := range s {
-		if unicode.IsNumber(r) && !unicode.IsDigit(r) {
-			return false
-		}
-		isDelim := !unicode.IsLetter(r) && !unicode.IsNumber(r)
-		if !isDelim && first {
-			if unicode.IsLower(r) && !unicode.IsUpper(unicode.ToUpper(r)) {
-				return false
-			}
-			first = false
-		}
-		_ = prevDelim
-		prevDelim = isDelim
-		// Go identifiers: letters are unicode.IsLetter or '_', digits unicode.IsDigit; everything else is a delimiter for the tool
-		if unicode.IsLetter(r) && !unicode.IsLetter(unicode.ToUpper(r)) {
+		if !tableOK(r) {
 			return false
 		}
 	}
